@@ -62,21 +62,25 @@ theorem FrameIs.spec (env : Env) {t : Trust} {e : Exp} {f : Frame} (h : FrameIs 
   · simp only [symbolise, h.instr]
 
 /-- **C04, x86, technique changing from frame to frame (partial: STACK WIN / frame pointer / scan).**
-    For an x86 context with 32-bit register values and a chain of `win`, `fp` and `scan` frames on
+    For an x86 context and a chain of `win`, `fp` and `scan` frames on
     which `PreW` holds, the walker returns the context frame followed by exactly one frame per
     generated call (`All2`: same length, related position by position), each the symbolisation of
     a frame that `FrameIs` the generated call with the label of its technique — and nothing after
     the generated end of stack. -/
 theorem walk_layout_mixed_x86_partial (os : Os) (w : World) (wins : List (List Win.Rec)) (mem : Mem)
     (ctx : Ctx) (chain : List Exp)
-    (hwf : ∀ r ∈ x86Regs, ctx.raw .x86 r ≤ U32MAX) (htech : chain.all techOK = true)
+    (htech : chain.all techOK = true)
     (hpre : PreW w wins (mkEnvW .x86 os w wins mem) .x86 os mem ctx chain = true) :
     ∃ frames, walk (mkEnvW .x86 os w wins mem) (some mem) ctx =
         symbolise (mkEnvW .x86 os w wins mem) (Frame.ofCtx ctx .context) :: frames ∧
       All2 (fun fr e => ∃ f', fr = symbolise (mkEnvW .x86 os w wins mem) f' ∧ FrameIs (x86Trust e) e f')
         frames chain := by
   simp only [PreW, Bool.and_eq_true, beq_iff_eq, Bool.or_eq_true] at hpre
-  obtain ⟨⟨⟨⟨⟨⟨hm, _⟩, hip⟩, hsp⟩, h64⟩, _⟩, hp⟩ := hpre
+  obtain ⟨⟨⟨⟨⟨⟨⟨hm, _⟩, hip⟩, hsp⟩, h64⟩, hwf⟩, _⟩, hp⟩ := hpre
+  have hwf : ∀ r ∈ x86Regs, ctx.raw .x86 r ≤ U32MAX := by
+    rcases hwf with h | h
+    · simp at h
+    · simpa [List.all_eq_true] using h
   have h64' : ctx.m64 = false := by
     have : (Arch.x86 == Arch.mips64) = false := rfl
     rw [h64]; exact this
@@ -97,7 +101,7 @@ theorem walk_layout_mixed_x86_partial (os : Os) (w : World) (wins : List (List W
     `FrameIs.spec`), and stops at the generated end. -/
 theorem walk_layout_win (os : Os) (w : World) (wins : List (List Win.Rec)) (mem : Mem)
     (ctx : Ctx) (chain : List Exp)
-    (hwf : ∀ r ∈ x86Regs, ctx.raw .x86 r ≤ U32MAX) (hwin : ∀ e ∈ chain, e.tech = "win")
+    (hwin : ∀ e ∈ chain, e.tech = "win")
     (hpre : PreW w wins (mkEnvW .x86 os w wins mem) .x86 os mem ctx chain = true) :
     ∃ frames, walk (mkEnvW .x86 os w wins mem) (some mem) ctx =
         symbolise (mkEnvW .x86 os w wins mem) (Frame.ofCtx ctx .context) :: frames ∧
@@ -107,7 +111,7 @@ theorem walk_layout_win (os : Os) (w : World) (wins : List (List Win.Rec)) (mem 
     rw [List.all_eq_true]
     intro e he
     simp [techOK, hwin e he]
-  obtain ⟨frames, hw, hall⟩ := walk_layout_mixed_x86_partial os w wins mem ctx chain hwf htech hpre
+  obtain ⟨frames, hw, hall⟩ := walk_layout_mixed_x86_partial os w wins mem ctx chain htech hpre
   refine ⟨frames, hw, ?_⟩
   clear hw hpre htech
   induction hall with
@@ -122,10 +126,10 @@ theorem walk_layout_win (os : Os) (w : World) (wins : List (List Win.Rec)) (mem 
 /-- frame count: no extra and no missing frame -/
 theorem walk_layout_win_length (os : Os) (w : World) (wins : List (List Win.Rec)) (mem : Mem)
     (ctx : Ctx) (chain : List Exp)
-    (hwf : ∀ r ∈ x86Regs, ctx.raw .x86 r ≤ U32MAX) (htech : chain.all techOK = true)
+    (htech : chain.all techOK = true)
     (hpre : PreW w wins (mkEnvW .x86 os w wins mem) .x86 os mem ctx chain = true) :
     (walk (mkEnvW .x86 os w wins mem) (some mem) ctx).length = chain.length + 1 := by
-  obtain ⟨frames, hw, hall⟩ := walk_layout_mixed_x86_partial os w wins mem ctx chain hwf htech hpre
+  obtain ⟨frames, hw, hall⟩ := walk_layout_mixed_x86_partial os w wins mem ctx chain htech hpre
   rw [hw, List.length_cons, hall.length_eq]
 
 /-! ## non-vacuity: a two-call x86 chain through a frame-data record and an FPO record
@@ -164,16 +168,14 @@ abbrev exWinEnv : Env := mkEnvW .x86 .windows exWinWorld exWinRecs exWinStack
 theorem exWin_pre : PreW exWinWorld exWinRecs exWinEnv .x86 .windows exWinStack exWinCtx exWinChain = true := by
   decide +kernel
 
-theorem exWin_wf : ∀ r ∈ x86Regs, exWinCtx.raw .x86 r ≤ U32MAX := by decide +kernel
-
 -- the hypotheses of `walk_layout_win` hold of the example, so its conclusion does …
 example : ∃ frames, walk exWinEnv (some exWinStack) exWinCtx =
       symbolise exWinEnv (Frame.ofCtx exWinCtx .context) :: frames ∧
     All2 (fun fr e => ∃ f', fr = symbolise exWinEnv f' ∧ FrameIs .cfi e f') frames exWinChain :=
-  walk_layout_win .windows exWinWorld exWinRecs exWinStack exWinCtx exWinChain exWin_wf (by decide) exWin_pre
+  walk_layout_win .windows exWinWorld exWinRecs exWinStack exWinCtx exWinChain (by decide) exWin_pre
 
 example : (walk exWinEnv (some exWinStack) exWinCtx).length = 3 :=
-  walk_layout_win_length .windows exWinWorld exWinRecs exWinStack exWinCtx exWinChain exWin_wf (by decide) exWin_pre
+  walk_layout_win_length .windows exWinWorld exWinRecs exWinStack exWinCtx exWinChain (by decide) exWin_pre
 
 -- … and evaluating the model on it gives the generated chain: technique labels, return addresses,
 -- stack pointers, lookup addresses, `%ebp`, `%ebx`, function
@@ -222,7 +224,7 @@ example : ∃ frames, walk exMixEnvX (some exMixStack) exMixCtx =
       symbolise exMixEnvX (Frame.ofCtx exMixCtx .context) :: frames ∧
     All2 (fun fr e => ∃ f', fr = symbolise exMixEnvX f' ∧ FrameIs (x86Trust e) e f') frames exMixChainX :=
   walk_layout_mixed_x86_partial .other exWinWorld exMixRecs exMixStack exMixCtx exMixChainX
-    (by decide +kernel) (by decide) exMix_pre
+    (by decide) exMix_pre
 
 example : (walk exMixEnvX (some exMixStack) exMixCtx).map (fun f => (f.trust, f.ctx.ip, f.ctx.sp, f.ctx.get .x86 "ebp")) =
     [(.context, 0x400050, 0x8000, some 0x8010), (.cfi, 0x400900, 0x8018, some 0x8020),
